@@ -72,6 +72,9 @@ class C08(spec.Spec):
             ]
         ops += [("at", ("A", "k", S("ex")), "i_1"), ("at", ("A", "k", S("ex")), "i_2"),
                 ("at", ("P", "type", Q("prov")), "q_prov")]
+        # look-ups (of an absent, of a present identifier) interleaved with the additions
+        ops += [("get", "D", ("A", "nothere", S("ex"))), ("get", "D", ("A", "nothere2", S("ex"))),
+                ("get", "D", ("A", "x", S("ex"))), ("get", "B1", ("A", "nothere", S("ex")))]
         self.alphabet = ops
 
     def build(self, hist):
